@@ -308,6 +308,12 @@ class OpaqueSignature(Signature):
     def __sig__(self):
         return self.data
 
+    def __copy__(self):
+        # the opaque octets are not among the MPI fields that MPIs.__copy__ carries over
+        sig = super(OpaqueSignature, self).__copy__()
+        sig.data = copy.copy(self.data)
+        return sig
+
     def parse(self, packet):
         self.data = packet
 
